@@ -37,4 +37,23 @@ PROPS = {
         "trusted": COMMON_TRUST,
         "text": "bytes_len = encoded length (proved); returned counts compared with bytes written",
     },
+    "C07": {
+        "lean": ["PnaVerif.Props.Consts", "PnaVerif.Props.C07"],
+        "families": ["parse", "entry", "codec", "truncate"],
+        "trusted": COMMON_TRUST,
+        "text": "no model read path reaches a panic outcome (proved for all inputs); hostile/mutated/truncated streams through the real readers under catch_unwind",
+    },
+    "C09": {
+        "lean": ["PnaVerif.Props.Consts", "PnaVerif.Props.C09"],
+        "families": ["codec"],
+        "ops": {"codec": ["name.sanitize", "fhed.dec", "fhed.reenc", "ref.normalize", "utf8"]},
+        "trusted": COMMON_TRUST + ["std::path::Path::components (unix) re-modelled and cross-checked by op name.sanitize"],
+        "text": "part 1: sanitiser output is always a safe relative path (proved); every constructor and the FHED parser compared with the model",
+    },
+    "C15": {
+        "lean": ["PnaVerif.Props.Consts", "PnaVerif.Props.C15"],
+        "families": ["codec", "entry"],
+        "trusted": COMMON_TRUST,
+        "text": "library codecs: dec(enc v) = v under explicit domain predicates (proved); codecs compared through hooks",
+    },
 }
